@@ -189,7 +189,7 @@ def gen_cases(ctx):
                 shape = ts_shapes[int(rng.integers(len(ts_shapes)))]
             else:
                 pool = [s for s in img_shapes if s[2] in (1, 3)] if name in ("Lime", "KernelShap") else img_shapes
-                shape = pool[int(rng.integers(len(pool)))]
+                shape = pool[(METHODS.index(name) + j // 3 + int(rng.integers(2))) % len(pool)]   # channel counts 1..4 spread over the methods
             n = int(rng.choice([1, 2, 3, 5, 6, 9]))
             cont = dict(containers[(j + int(rng.integers(len(containers)))) % len(containers)])
             if cont.get("batch") == "b":
